@@ -36,6 +36,9 @@ pub enum Stdout {
 	File,
 	Pty,
 	DevFull,
+	/// a pipe in O_NONBLOCK mode that is full to the last byte when xt starts and is drained only after
+	/// xt has exited (every write xt attempts fails with EAGAIN)
+	NonBlockFull,
 }
 
 #[derive(Clone, Debug, PartialEq, Eq)]
@@ -76,6 +79,8 @@ pub struct Spawn {
 	pub stdout: Stdout,
 	pub env: Vec<(String, String)>,
 	pub timeout: Duration,
+	/// SIGPIPE is blocked in the signal mask xt inherits
+	pub block_sigpipe: bool,
 }
 
 impl Spawn {
@@ -88,6 +93,7 @@ impl Spawn {
 			stdout: Stdout::Pipe,
 			env: vec![],
 			timeout: Duration::from_secs(60),
+			block_sigpipe: false,
 		}
 	}
 }
@@ -102,6 +108,22 @@ fn openpty() -> (OwnedFd, OwnedFd) {
 	unsafe { (OwnedFd::from_raw_fd(master), OwnedFd::from_raw_fd(slave)) }
 }
 
+fn apply_sigmask(cmd: &mut Command, sp: &Spawn) {
+	if sp.block_sigpipe {
+		use std::os::unix::process::CommandExt;
+		// SAFETY: the closure runs between fork and exec and only calls async-signal-safe functions.
+		unsafe {
+			cmd.pre_exec(|| {
+				let mut set: libc::sigset_t = std::mem::zeroed();
+				libc::sigemptyset(&mut set);
+				libc::sigaddset(&mut set, libc::SIGPIPE);
+				libc::sigprocmask(libc::SIG_BLOCK, &set, std::ptr::null_mut());
+				Ok(())
+			});
+		}
+	}
+}
+
 static FILE_SEQ: std::sync::atomic::AtomicU64 = std::sync::atomic::AtomicU64::new(0);
 
 pub fn run(sp: &Spawn) -> ProcOut {
@@ -111,6 +133,7 @@ pub fn run(sp: &Spawn) -> ProcOut {
 	for (k, v) in &sp.env {
 		cmd.env(k, v);
 	}
+	apply_sigmask(&mut cmd, sp);
 	match &sp.stdin {
 		Stdin::Bytes(_) | Stdin::Packets(_) => {
 			cmd.stdin(Stdio::piped());
@@ -122,6 +145,7 @@ pub fn run(sp: &Spawn) -> ProcOut {
 			cmd.stdin(File::open(p).expect("MACHINERY: stdin fixture"));
 		}
 	}
+	let mut nonblock: Option<(File, usize)> = None;
 	let mut pty_master = None;
 	let mut out_file = None;
 	match sp.stdout {
@@ -140,6 +164,34 @@ pub fn run(sp: &Spawn) -> ProcOut {
 		}
 		Stdout::DevFull => {
 			cmd.stdout(std::fs::OpenOptions::new().write(true).open("/dev/full").expect("MACHINERY: /dev/full"));
+		}
+		Stdout::NonBlockFull => {
+			let mut fds = [0i32; 2];
+			// SAFETY: plain pipe2 / fcntl / write calls on descriptors created here.
+			unsafe {
+				assert!(libc::pipe2(fds.as_mut_ptr(), libc::O_CLOEXEC) == 0, "MACHINERY: pipe2");
+				let fl = libc::fcntl(fds[1], libc::F_GETFL);
+				libc::fcntl(fds[1], libc::F_SETFL, fl | libc::O_NONBLOCK);
+				let fl = libc::fcntl(fds[0], libc::F_GETFL);
+				libc::fcntl(fds[0], libc::F_SETFL, fl | libc::O_NONBLOCK);
+				let filler = [b'F'; 4096];
+				let mut filled = 0usize;
+				loop {
+					let n = libc::write(fds[1], filler.as_ptr().cast(), filler.len());
+					if n <= 0 {
+						// the last page may take a shorter write
+						let n1 = libc::write(fds[1], filler.as_ptr().cast(), 1);
+						if n1 <= 0 {
+							break;
+						}
+						filled += 1;
+						continue;
+					}
+					filled += n as usize;
+				}
+				nonblock = Some((File::from(OwnedFd::from_raw_fd(fds[0])), filled));
+				cmd.stdout(Stdio::from(OwnedFd::from_raw_fd(fds[1])));
+			}
 		}
 	}
 	let mut child = cmd.spawn().expect("MACHINERY: cannot spawn xt");
@@ -251,6 +303,18 @@ pub fn run(sp: &Spawn) -> ProcOut {
 		stdout = std::fs::read(&p).unwrap_or_default();
 		let _ = std::fs::remove_file(&p);
 	}
+	if let Some((mut f, filled)) = nonblock {
+		// only now is the pipe drained: first our own filler, then whatever xt managed to write
+		let mut all = vec![];
+		let mut buf = vec![0u8; 65536];
+		while let Ok(n) = f.read(&mut buf) {
+			if n == 0 {
+				break;
+			}
+			all.extend_from_slice(&buf[..n]);
+		}
+		stdout = all.split_off(filled.min(all.len()));
+	}
 	ProcOut { exit, stdout, stderr }
 }
 
@@ -342,6 +406,7 @@ pub fn run_with_leaving_consumer(sp: &Spawn, capacity: i32, take: usize) -> (Pro
 	}
 	let mut cmd = Command::new(xt_bin(sp.release));
 	cmd.args(&sp.args).current_dir(&sp.cwd).stderr(Stdio::piped()).stdout(Stdio::from(wr));
+	apply_sigmask(&mut cmd, sp);
 	cmd.env_remove("LD_PRELOAD");
 	for (k, v) in &sp.env {
 		cmd.env(k, v);
